@@ -387,6 +387,7 @@ func (h *vHarness) runHandover(sc vScenario, sk *hoSink) {
 						s.clientTCP(a, cs, "hammer")
 					}
 					i += 5
+					time.Sleep(300 * time.Microsecond)
 				}
 			}(g)
 		}
